@@ -502,6 +502,12 @@ func nextPacket(a notifier, q <-chan *com.Packet, n *com.Packet, i device.ID, t 
 		if n == nil {
 			n = <-q
 		}
+		// KeyCrypt: A Packet that carries key material (FlagCrypt) is never packed
+		//           (see Session.next), it is kept back and sent on its own.
+		if n.Flags&com.FlagCrypt != 0 && o.Flags.Len() > 0 {
+			k = n
+			break
+		}
 		// TODO(dij): ?need to add a check here to see if len(c) == 0
 		//            if so, drop a SvNop and return only the first
 		if isPacketNoP(n) && ((s > 0 && !m) || (n.Device.Empty() || n.Device == i)) {
